@@ -710,6 +710,8 @@ class FuncCanon(object):
                 continue
             if not always_leaves_function(iff.body) or _size(iff.body) > 2 or any(_has_call_other_than_pure(x) for x in iff.body):
                 continue
+            if _contains_own(iff.body, ast.Break) or _contains_own(iff.body, ast.Continue):
+                continue
 
             def decide(e):
                 """truth of the test for v == e; None if unknown"""
@@ -932,6 +934,8 @@ class FuncCanon(object):
             rest = blk[i + 1:]
             if len(sites) != 1 or sites[0][0] is None or not always_leaves_function(rest) or _size(rest) > 2:
                 continue
+            if _contains_own(rest, ast.Break) or _contains_own(rest, ast.Continue):
+                continue
             if any(_has_call_other_than_pure(s) for s in rest):
                 continue
             owner, idx = sites[0]
@@ -956,6 +960,8 @@ class FuncCanon(object):
             owner, idx = sites[0]
             if not rest and not top:
                 continue
+            if _contains_own(rest, ast.Break) or _contains_own(rest, ast.Continue):
+                continue      # they would bind to this loop once moved into it
             if _size(rest) > 6:
                 continue
             tail = list(rest)
